@@ -1,6 +1,6 @@
 //! C16: a request whose framing-relevant header syntax is ambiguous must be answered with 400 and
 //! never delivered; the bytes after its head must not be parsed as a further request.
-//! usage: c16_header_syntax <case>   case in {cl-sign, cl-junk, cl-list, cl-empty, cl-overflow, lead-ws, ws-before-colon}
+//! usage: c16_header_syntax <case>   case in {cl-sign, cl-junk, cl-list, cl-empty, cl-overflow, blank-fold, lead-ws, ws-before-colon}
 use std::time::Duration;
 use verif_replay::*;
 fn main() {
@@ -11,6 +11,7 @@ fn main() {
         "cl-list" => b"POST /a HTTP/1.1\r\nHost: a\r\nContent-Length: 3, 3\r\n\r\nabc",
         "cl-empty" => b"POST /a HTTP/1.1\r\nHost: a\r\nContent-Length:\r\n\r\nabc",
         "cl-overflow" => b"POST /a HTTP/1.1\r\nHost: a\r\nContent-Length: 340282366920938463463374607431768211456\r\n\r\nabc",
+        "blank-fold" => b"POST /a HTTP/1.1\r\nHost: a\r\nContent-Length: 0\r\n \t\r\nX: y\r\n\r\n",
         "lead-ws" => b"POST /a HTTP/1.1\r\nHost: a\r\n Content-Length: 3\r\n\r\nabc",
         "ws-before-colon" => b"POST /a HTTP/1.1\r\nHost: a\r\nContent-Length : 3\r\n\r\nabc",
         _ => panic!("unknown case"),
